@@ -28,25 +28,24 @@ Proof. rewrite N.shiftl_mul_pow2. change (2 ^ 2) with 4. lia. Qed.
 Lemma be16_lt a b : a < 256 -> b < 256 -> be16 a b < 65536.
 Proof. unfold be16. lia. Qed.
 
+Lemma shr4 x : N.shiftr x 4 = x / 16.
+Proof. rewrite N.shiftr_div_pow2. reflexivity. Qed.
+
 Section Frame.
 Variable f : bytes.
-Hypothesis Hok : bytes_ok f.
-Hypothesis Hlen : N.of_nat (List.length f) <= 65535.
 
 Lemma nthf a b : a = b -> nth a f 0 = nth b f 0.
 Proof. intros ->. reflexivity. Qed.
 
-Theorem frame_agree : known_C19_frame f = false -> parse_notify f = Ok (rfc_reply_id f).
+(* for every frame (any bytes, any length): what Parse does is what the RFC reading says *)
+Theorem frame_agree : parse_notify f = Ok (rfc_reply_id f).
 Proof.
-  intros Hk. pose proof Hok as Hok'. pose proof Hlen as Hlen'.
   unfold parse_notify, parse_notify_s, rfc_reply_id, icmp_message.
   cbn [len of_bytes]. destruct (Nat.ltb_spec (List.length f) 14) as [L14|L14]; [reflexivity|].
   rewrite idx_ok by (cbn [len of_bytes]; lia). cbn [bind arr of_bytes]. unfold at_.
   rewrite land1. destruct (nth 6 f 0 mod 2 =? 0) eqn:Emc; cbn [negb]; [|reflexivity].
   rewrite be16_at_ok by (unfold cap; cbn [arr of_bytes]; lia). cbn [bind arr of_bytes].
   unfold word_at, at_. change (12 + 1)%nat with 13%nat.
-  unfold known_C19_frame, known_C19_iphdr, known_C19_family, known_C19_totallen, known_C19_paylen, is_ip4, is_ip6,
-    word_at, at_ in Hk. change (12 + 1)%nat with 13%nat in Hk. change (16 + 1)%nat with 17%nat in Hk.
   set (et := be16 (nth 12 f 0) (nth 13 f 0)) in *.
   unfold ETH_P_IP, ETH_P_IPV6.
   destruct (et <? 1536) eqn:E1.
@@ -60,90 +59,105 @@ Proof.
     rewrite be16_at_ok by (unfold cap; cbn [arr]; rewrite skipn_length; lia). cbn [bind arr].
     rewrite !nth_skipn.
     change (14 + 0)%nat with 14%nat. change (14 + 2)%nat with 16%nat. change (14 + (2 + 1))%nat with 17%nat.
-    rewrite land15, shl2.
-    assert (H34 : Nat.leb 34 (List.length f) = true) by (apply Nat.leb_le; lia).
-    assert (E6 : et =? 34525 = false) by (apply N.eqb_eq in E4; apply N.eqb_neq; rewrite E4; discriminate).
-    rewrite H34, E6 in Hk. rewrite !andb_false_r in Hk. cbn [andb orb] in Hk. rewrite !orb_false_r in Hk.
+    rewrite land15, shl2, shr4.
     set (b0 := nth 14 f 0) in *. set (tl := be16 (nth 16 f 0) (nth 17 f 0)) in *.
-    assert (Hv : b0 / 16 =? 4 = true /\ nth 23 f 0 =? 58 = false /\
-                 (4 * (b0 mod 16) <=? tl) && (tl <? 4 * (b0 mod 16) + 8) = false).
-    { destruct (b0 / 16 =? 4), (nth 23 f 0 =? 58), ((4 * (b0 mod 16) <=? tl) && (tl <? 4 * (b0 mod 16) + 8));
-        cbn in Hk; try discriminate; auto. }
-    destruct Hv as (Hver & H58 & Htl).
-    rewrite Hver. cbn [andb].
     set (hl := N.to_nat (4 * (b0 mod 16))) in *.
     destruct (Nat.ltb_spec hl 20) as [Hhl|Hhl].
-    { cbn [orb]. destruct (Nat.leb_spec 20 hl); [lia|reflexivity]. }
+    { cbn [orb]. destruct (Nat.leb_spec 20 hl); [lia|]. rewrite andb_false_r. reflexivity. }
     cbn [orb].
-    assert (E20 : Nat.leb 20 hl = true) by (apply Nat.leb_le; lia). rewrite E20. cbn [andb].
+    assert (E20 : Nat.leb 20 hl = true) by (apply Nat.leb_le; lia). rewrite E20.
     destruct (Nat.ltb_spec (N.to_nat tl) hl) as [Hth|Hth].
-    { rewrite orb_true_r. cbn [orb]. destruct (Nat.leb_spec hl (N.to_nat tl)); [lia|reflexivity]. }
+    { rewrite orb_true_r. cbn [orb]. destruct (Nat.leb_spec hl (N.to_nat tl)); [lia|].
+      rewrite andb_true_r, andb_false_r. reflexivity. }
     rewrite orb_false_r.
-    assert (Htl' : (hl + 8 <= N.to_nat tl)%nat) by (unfold hl in *; lia).
-    assert (Ehl : Nat.leb hl (N.to_nat tl) = true) by (apply Nat.leb_le; lia). rewrite Ehl. cbn [andb].
+    assert (Ehl : Nat.leb hl (N.to_nat tl) = true) by (apply Nat.leb_le; lia). rewrite Ehl.
+    rewrite !andb_true_r.
     destruct (Nat.leb_spec (N.to_nat tl) (List.length f - 14)) as [Ltl|Ltl].
     + assert (Ea : Nat.ltb (List.length f - 14) hl = false) by (apply Nat.ltb_ge; lia).
       assert (Eb : Nat.ltb (List.length f - 14) (N.to_nat tl) = false) by (apply Nat.ltb_ge; lia).
-      rewrite Ea, Eb. cbn [orb andb].
+      rewrite Ea, Eb. cbn [orb]. rewrite andb_true_r.
       rewrite idx_ok by (cbn [len]; lia). cbn [bind arr]. rewrite nth_skipn. change (14 + 9)%nat with 23%nat.
       rewrite slfrom_ok by (cbn [len of_bytes]; lia). cbn [bind].
       unfold icmp_notify, IPPROTO_ICMP, IPPROTO_ICMPV6, ICMP4TypeEchoReply, ICMP6TypeEchoReply.
-      rewrite H58. rewrite orb_false_r. cbn [len of_bytes arr].
-      destruct (nth 23 f 0 =? 1) eqn:Ep; [|reflexivity].
-      assert (Ec : Nat.ltb (List.length f - (14 + hl)) 8 = false) by (apply Nat.ltb_ge; lia).
-      rewrite Ec.
-      rewrite idx_ok by (cbn [len]; lia). cbn [bind arr]. rewrite nth_skipn.
-      rewrite firstn_length, !skipn_length.
-      assert (Ed : Nat.ltb (Nat.min (N.to_nat tl - hl) (List.length f - 14 - hl)) 8 = false)
-        by (apply Nat.ltb_ge; lia).
-      rewrite Ed.
-      rewrite (nth_firstn _ _ 0%nat) by lia. rewrite !nth_skipn.
-      rewrite (nthf (14 + (hl + 0)) (14 + hl + 0)) by lia.
-      destruct (nth (14 + hl + 0) f 0 =? 0); [|reflexivity].
-      rewrite be16_at_ok by (unfold cap; cbn [arr]; rewrite skipn_length; lia). cbn [bind arr].
-      rewrite (nth_firstn _ _ 4%nat) by lia. rewrite (nth_firstn _ _ (4 + 1)%nat) by lia.
-      rewrite !nth_skipn.
-      rewrite (nthf (14 + (hl + 4)) (14 + hl + 4)) by lia.
-      rewrite (nthf (14 + (hl + (4 + 1))) (14 + hl + (4 + 1))) by lia.
-      reflexivity.
+      cbn [len of_bytes arr].
+      destruct (nth 23 f 0 =? 1) eqn:Ep.
+      * cbn [orb Bool.eqb]. rewrite andb_true_r.
+        destruct (b0 / 16 =? 4) eqn:Ev.
+        2:{ rewrite !andb_false_r. destruct (Nat.ltb_spec (List.length f - (14 + hl)) 8); [reflexivity|].
+            rewrite idx_ok by (cbn [len]; lia). cbn [bind]. rewrite !andb_false_r. reflexivity. }
+        rewrite andb_true_r.
+        rewrite firstn_length, !skipn_length.
+        replace (Nat.min (N.to_nat tl - hl) (List.length f - 14 - hl)) with (N.to_nat tl - hl)%nat by lia.
+        destruct (Nat.ltb_spec (List.length f - (14 + hl)) 8) as [Lc|Lc].
+        { destruct (Nat.ltb_spec (N.to_nat tl - hl) 8); [reflexivity|lia]. }
+        rewrite idx_ok by (cbn [len]; lia). cbn [bind arr]. rewrite nth_skipn.
+        destruct (Nat.leb_spec 8 (N.to_nat tl - hl)) as [L8|L8].
+        -- destruct (Nat.ltb_spec (N.to_nat tl - hl) 8); [lia|].
+           rewrite andb_true_r.
+           rewrite (nth_firstn _ _ 0%nat) by lia. rewrite !nth_skipn.
+           rewrite (nthf (14 + (hl + 0)) (14 + hl + 0)) by lia.
+           destruct (nth (14 + hl + 0) f 0 =? 0); [|reflexivity].
+           rewrite be16_at_ok by (unfold cap; cbn [arr]; rewrite skipn_length; lia). cbn [bind arr].
+           rewrite (nth_firstn _ _ 4%nat) by lia. rewrite (nth_firstn _ _ (4 + 1)%nat) by lia.
+           rewrite !nth_skipn.
+           rewrite (nthf (14 + (hl + 4)) (14 + hl + 4)) by lia.
+           rewrite (nthf (14 + (hl + (4 + 1))) (14 + hl + (4 + 1))) by lia.
+           reflexivity.
+        -- rewrite andb_false_r.
+           destruct (Nat.ltb_spec (N.to_nat tl - hl) 8); [reflexivity|lia].
+      * rewrite andb_false_r. cbn [orb].
+        destruct (nth 23 f 0 =? 58) eqn:Ep6; [|reflexivity].
+        destruct (Nat.ltb_spec (List.length f - (14 + hl)) 8); [reflexivity|].
+        rewrite idx_ok by (cbn [len]; lia). cbn [bind arr Bool.eqb]. rewrite andb_false_r. reflexivity.
     + assert (Eb : Nat.ltb (List.length f - 14) (N.to_nat tl) = true) by (apply Nat.ltb_lt; lia).
-      rewrite Eb, orb_true_r. reflexivity.
+      rewrite Eb, orb_true_r. rewrite andb_false_r. reflexivity.
   - destruct (et =? 34525) eqn:E6; [|reflexivity].
     (* IPv6 *)
     rewrite slfrom_ok by (cbn [len of_bytes]; lia). cbn [bind len of_bytes arr].
     rewrite skipn_length.
     destruct (Nat.ltb_spec (List.length f - 14) 40) as [L40|L40]; [reflexivity|].
+    rewrite idx_ok by (cbn [len]; lia). cbn [bind arr].
     rewrite be16_at_ok by (unfold cap; cbn [arr]; rewrite skipn_length; lia). cbn [bind arr].
     rewrite !nth_skipn.
     change (14 + 4)%nat with 18%nat. change (14 + (4 + 1))%nat with 19%nat. change (14 + 0)%nat with 14%nat.
-    change (18 + 1)%nat with 19%nat in Hk.
-    assert (H54 : Nat.leb 54 (List.length f) = true) by (apply Nat.leb_le; lia).
-    rewrite H54 in Hk. rewrite !andb_false_r in Hk. cbn [andb orb] in Hk.
+    rewrite shr4.
     set (b0 := nth 14 f 0) in *. set (pl := be16 (nth 18 f 0) (nth 19 f 0)) in *.
-    assert (Hv : b0 / 16 =? 6 = true /\ nth 20 f 0 =? 1 = false /\ pl <? 8 = false).
-    { destruct (b0 / 16 =? 6), (nth 20 f 0 =? 1), (pl <? 8); cbn in Hk; try discriminate; auto. }
-    destruct Hv as (Hver & H1 & Hpl8).
-    rewrite Hver. cbn [andb].
     replace (Nat.ltb (List.length f - 14) (N.to_nat pl + 40)) with (negb (Nat.leb (40 + N.to_nat pl) (List.length f - 14))).
     2:{ destruct (Nat.leb_spec (40 + N.to_nat pl) (List.length f - 14)), (Nat.ltb_spec (List.length f - 14) (N.to_nat pl + 40)); try reflexivity; lia. }
-    destruct (Nat.leb_spec (40 + N.to_nat pl) (List.length f - 14)) as [Lpl|Lpl]; cbn [negb andb]; [|reflexivity].
+    destruct (Nat.leb_spec (40 + N.to_nat pl) (List.length f - 14)) as [Lpl|Lpl]; cbn [negb];
+      [|rewrite andb_false_r; reflexivity].
+    rewrite andb_true_r.
     rewrite idx_ok by (cbn [len]; lia). cbn [bind arr]. rewrite nth_skipn. change (14 + 6)%nat with 20%nat.
     rewrite slfrom_ok by (cbn [len of_bytes]; lia). cbn [bind].
     unfold icmp_notify, IPPROTO_ICMP, IPPROTO_ICMPV6, ICMP4TypeEchoReply, ICMP6TypeEchoReply.
-    rewrite H1. cbn [orb]. cbn [len of_bytes arr].
-    destruct (nth 20 f 0 =? 58) eqn:Ep; [|reflexivity].
-    assert (Hpl8' : (8 <= N.to_nat pl)%nat) by lia.
-    assert (Ec : Nat.ltb (List.length f - 54) 8 = false) by (apply Nat.ltb_ge; lia). rewrite Ec.
-    rewrite firstn_length, !skipn_length.
-    assert (Ed : Nat.ltb (Nat.min (N.to_nat pl) (List.length f - 14 - 40)) 8 = false) by (apply Nat.ltb_ge; lia).
-    rewrite Ed.
-    rewrite idx_ok by (cbn [len]; lia). cbn [bind arr].
-    rewrite (nth_firstn _ _ 0%nat) by lia. rewrite !nth_skipn.
-    change (54 + 0)%nat with 54%nat. change (14 + (40 + 0))%nat with 54%nat.
-    destruct (nth 54 f 0 =? 129); [|reflexivity].
-    rewrite be16_at_ok by (unfold cap; cbn [arr]; rewrite skipn_length; lia). cbn [bind arr].
-    rewrite (nth_firstn _ _ 4%nat) by lia. rewrite (nth_firstn _ _ (4 + 1)%nat) by lia.
-    rewrite !nth_skipn. reflexivity.
+    cbn [len of_bytes arr].
+    destruct (nth 20 f 0 =? 58) eqn:Ep.
+    + assert (E1' : nth 20 f 0 =? 1 = false) by (apply N.eqb_eq in Ep; rewrite Ep; reflexivity).
+      rewrite E1'. cbn [orb Bool.eqb]. rewrite andb_true_r.
+      destruct (b0 / 16 =? 6) eqn:Ev.
+      2:{ rewrite !andb_false_r. destruct (Nat.ltb_spec (List.length f - 54) 8); [reflexivity|].
+          rewrite idx_ok by (cbn [len]; lia). cbn [bind]. rewrite !andb_false_r. reflexivity. }
+      rewrite andb_true_r.
+      rewrite firstn_length, !skipn_length.
+      replace (Nat.min (N.to_nat pl) (List.length f - 14 - 40)) with (N.to_nat pl) by lia.
+      destruct (Nat.ltb_spec (List.length f - 54) 8) as [Lc|Lc].
+      { destruct (Nat.ltb_spec (N.to_nat pl) 8); [reflexivity|lia]. }
+      rewrite idx_ok by (cbn [len]; lia). cbn [bind arr]. rewrite nth_skipn.
+      destruct (Nat.leb_spec 8 (N.to_nat pl)) as [L8|L8].
+      * destruct (Nat.ltb_spec (N.to_nat pl) 8); [lia|].
+        rewrite andb_true_r.
+        rewrite (nth_firstn _ _ 0%nat) by lia. rewrite !nth_skipn.
+        change (54 + 0)%nat with 54%nat. change (14 + (40 + 0))%nat with 54%nat.
+        destruct (nth 54 f 0 =? 129); [|reflexivity].
+        rewrite be16_at_ok by (unfold cap; cbn [arr]; rewrite skipn_length; lia). cbn [bind arr].
+        rewrite (nth_firstn _ _ 4%nat) by lia. rewrite (nth_firstn _ _ (4 + 1)%nat) by lia.
+        rewrite !nth_skipn. reflexivity.
+      * rewrite andb_false_r.
+        destruct (Nat.ltb_spec (N.to_nat pl) 8); [reflexivity|lia].
+    + rewrite andb_false_r.
+      destruct (nth 20 f 0 =? 1) eqn:Ep1; cbn [orb]; [|reflexivity].
+      destruct (Nat.ltb_spec (List.length f - 54) 8); [reflexivity|].
+      rewrite idx_ok by (cbn [len]; lia). cbn [bind arr Bool.eqb]. rewrite andb_false_r. reflexivity.
 Qed.
 
 End Frame.
@@ -164,18 +178,15 @@ Qed.
 
 (* a frame that is not an echo reply for i (foreign id, echo request, malformed, not ICMP) does
    not make Parse call echoNotify(i) *)
-Theorem frame_foreign f i : bytes_ok f -> N.of_nat (List.length f) <= 65535 ->
-  known_C19_frame f = false -> rfc_reply_id f <> Some i -> parse_notify f <> Ok (Some i).
-Proof. intros Hok Hl Hk Hne E. rewrite (frame_agree f Hok Hl Hk) in E. inversion E. congruence. Qed.
+Theorem frame_foreign f i : rfc_reply_id f <> Some i -> parse_notify f <> Ok (Some i).
+Proof. intros Hne E. rewrite (frame_agree f) in E. inversion E. congruence. Qed.
 
-Theorem frame_request_silent f j : bytes_ok f -> N.of_nat (List.length f) <= 65535 ->
-  known_C19_frame f = false -> rfc_request_id f = Some j -> parse_notify f = Ok None.
-Proof. intros Hok Hl Hk Hr. rewrite (frame_agree f Hok Hl Hk), (request_not_reply _ _ Hr). reflexivity. Qed.
+Theorem frame_request_silent f j : rfc_request_id f = Some j -> parse_notify f = Ok None.
+Proof. intros Hr. rewrite (frame_agree f), (request_not_reply _ _ Hr). reflexivity. Qed.
 
 (* Parse never panics on the path to echoNotify (any bytes, cap = len) *)
-Theorem parse_notify_total f : bytes_ok f -> N.of_nat (List.length f) <= 65535 ->
-  known_C19_frame f = false -> exists o, parse_notify f = Ok o.
-Proof. intros Hok Hl Hk. eexists. apply frame_agree; auto. Qed.
+Theorem parse_notify_total f : exists o, parse_notify f = Ok o.
+Proof. eexists. apply frame_agree. Qed.
 
 (* ------------------------------------------------------------------ *)
 (* C19_foreign: a call whose window contains only frames that are not echo replies for its own
@@ -187,43 +198,42 @@ Theorem ping_foreign fx n pre p mid post s :
   run fx (init n) (pre ++ Begin p :: mid ++ End p :: post) = Ok s ->
   always fx young (init n) (pre ++ Begin p :: mid ++ End p :: post) ->
   (forall e, In e mid ->
-     (exists f, e = frame_event f /\ bytes_ok f /\ N.of_nat (List.length f) <= 65535 /\
-                known_C19_frame f = false /\ rfc_reply_id f <> id_of s p)
+     (exists f, e = frame_event f /\ rfc_reply_id f <> id_of s p)
      \/ (forall j, e <> Notify j)) ->
   result_of s p = Some RTimeout.
 Proof.
   intros Hn Hrun Hal Hmid.
   destruct (ping_iff _ _ _ _ _ _ _ Hn Hrun Hal) as (i & Hid & _ & Hto).
-  apply Hto. intros Hin. destruct (Hmid _ Hin) as [(f & Ef & Hok & Hl & Hk & Hne)|Hno].
-  - unfold frame_event in Ef. rewrite (frame_agree f Hok Hl Hk) in Ef.
+  apply Hto. intros Hin. destruct (Hmid _ Hin) as [(f & Ef & Hne)|Hno].
+  - unfold frame_event in Ef. rewrite (frame_agree f) in Ef.
     destruct (rfc_reply_id f) as [j|]; [|discriminate]. injection Ef as Eij. apply Hne. rewrite Hid, Eij. reflexivity.
   - exact (Hno i eq_refl).
 Qed.
 
 (* ------------------------------------------------------------------ *)
-(* witnesses: the three recorded classes, and non-vacuity *)
+(* regression witnesses: one frame of each class that used to complete a ping (recorded findings,
+   now repaired in /repo), and well-formed frames *)
 
 (* "IPv4" header with version nibble 5 (0x55), otherwise an echo reply with id 7 *)
 Definition w_iphdr : bytes :=
   [0; 85; 85; 85; 85; 85; 2; 25; 0; 0; 0; 0; 8; 0; 85; 0; 0; 28; 0; 0; 0; 0; 64; 1; 248; 251;
    192; 168; 0; 20; 192; 168; 0; 129; 0; 0; 255; 247; 0; 7; 0; 1].
+
 (* IPv6 packet with next header 1 carrying an ICMPv4-style echo reply, id 7 *)
 Definition w_family : bytes :=
   [0; 85; 85; 85; 85; 85; 2; 25; 0; 0; 0; 0; 134; 221; 96; 0; 0; 0; 0; 8; 1; 64;
    254; 128; 0; 0; 0; 0; 0; 0; 0; 0; 0; 0; 0; 25; 0; 20; 254; 128; 0; 0; 0; 0; 0; 0; 0; 0; 0; 0; 0; 1; 1; 41;
    0; 0; 255; 247; 0; 7; 0; 1].
+
 (* IPv4 TotalLength 22 = 2 bytes of ICMP; the frame carries 12 *)
 Definition w_totallen : bytes :=
   [0; 85; 85; 85; 85; 85; 2; 25; 0; 0; 0; 0; 8; 0; 69; 0; 0; 22; 0; 0; 0; 0; 64; 1; 248; 247;
    192; 168; 0; 20; 192; 168; 0; 129; 0; 0; 233; 211; 0; 7; 0; 1; 4; 11; 18; 25].
+
 (* well-formed: an IPv4 echo request and an IPv6 echo reply, id 7 *)
 Definition w_request4 : bytes :=
   [0; 85; 85; 85; 85; 85; 2; 25; 0; 0; 0; 0; 8; 0; 69; 0; 0; 28; 0; 0; 0; 0; 64; 1; 248; 251;
    192; 168; 0; 20; 192; 168; 0; 129; 8; 0; 247; 247; 0; 7; 0; 1].
-Definition w_reply6 : bytes :=
-  [0; 85; 85; 85; 85; 85; 2; 25; 0; 0; 0; 0; 134; 221; 96; 0; 0; 0; 0; 8; 58; 64;
-   254; 128; 0; 0; 0; 0; 0; 0; 0; 0; 0; 0; 0; 25; 0; 20; 254; 128; 0; 0; 0; 0; 0; 0; 0; 0; 0; 0; 0; 1; 1; 41;
-   129; 0; 128; 92; 0; 7; 0; 1].
 
 (* IPv6 PayloadLength 4; the frame carries the 8-byte echo reply *)
 Definition w_paylen : bytes :=
@@ -231,30 +241,19 @@ Definition w_paylen : bytes :=
    254; 128; 0; 0; 0; 0; 0; 0; 0; 0; 0; 0; 0; 25; 0; 20; 254; 128; 0; 0; 0; 0; 0; 0; 0; 0; 0; 0; 0; 1; 1; 41;
    129; 0; 128; 92; 0; 7; 0; 1].
 
-Theorem frame_agree_refuted_paylen :
-  bytes_okb w_paylen = true /\ known_C19_iphdr w_paylen = false /\ known_C19_family w_paylen = false /\
-  known_C19_totallen w_paylen = false /\ known_C19_paylen w_paylen = true /\
-  parse_notify w_paylen = Ok (Some 7) /\ rfc_reply_id w_paylen = None.
-Proof. vm_compute. repeat split. Qed.
+Definition w_reply6 : bytes :=
+  [0; 85; 85; 85; 85; 85; 2; 25; 0; 0; 0; 0; 134; 221; 96; 0; 0; 0; 0; 8; 58; 64;
+   254; 128; 0; 0; 0; 0; 0; 0; 0; 0; 0; 0; 0; 25; 0; 20; 254; 128; 0; 0; 0; 0; 0; 0; 0; 0; 0; 0; 0; 1; 1; 41;
+   129; 0; 128; 92; 0; 7; 0; 1].
 
-Theorem frame_agree_refuted_iphdr :
-  bytes_okb w_iphdr = true /\ known_C19_iphdr w_iphdr = true /\
-  parse_notify w_iphdr = Ok (Some 7) /\ rfc_reply_id w_iphdr = None.
-Proof. vm_compute. repeat split. Qed.
-
-Theorem frame_agree_refuted_family :
-  bytes_okb w_family = true /\ known_C19_iphdr w_family = false /\ known_C19_family w_family = true /\
-  parse_notify w_family = Ok (Some 7) /\ rfc_reply_id w_family = None.
-Proof. vm_compute. repeat split. Qed.
-
-Theorem frame_agree_refuted_totallen :
-  bytes_okb w_totallen = true /\ known_C19_iphdr w_totallen = false /\ known_C19_family w_totallen = false /\
-  known_C19_totallen w_totallen = true /\
-  parse_notify w_totallen = Ok (Some 7) /\ rfc_reply_id w_totallen = None.
+Example closed_classes :
+  was_C19_iphdr w_iphdr = true /\ parse_notify w_iphdr = Ok None /\
+  was_C19_family w_family = true /\ parse_notify w_family = Ok None /\
+  was_C19_totallen w_totallen = true /\ parse_notify w_totallen = Ok None /\
+  was_C19_paylen w_paylen = true /\ parse_notify w_paylen = Ok None.
 Proof. vm_compute. repeat split. Qed.
 
 Example frame_agree_nonvacuous :
-  bytes_okb w_reply6 = true /\ known_C19_frame w_reply6 = false /\ parse_notify w_reply6 = Ok (Some 7) /\
-  bytes_okb w_request4 = true /\ known_C19_frame w_request4 = false /\ rfc_request_id w_request4 = Some 7 /\
-  parse_notify w_request4 = Ok None.
+  parse_notify w_reply6 = Ok (Some 7) /\ rfc_reply_id w_reply6 = Some 7 /\
+  rfc_request_id w_request4 = Some 7 /\ parse_notify w_request4 = Ok None.
 Proof. vm_compute. repeat split. Qed.
